@@ -22,7 +22,7 @@ def run (rounds : List ParseOutcome) : List String := rounds.foldl (fun cur o =>
 /-- What the harness's listing classes amount to. -/
 def outcomeOfClass (cls : String) (names : List String) : ParseOutcome :=
   match cls with
-  | "good" | "dup" | "nameless" | "emptylist" => .models names
+  | "good" | "dup" | "nameless" | "emptylist" | "blankname" => .models names
   | "emptybody" => .models []
   | _ => .err
 
